@@ -9,14 +9,15 @@ Scheme expr_mi := Induction for expr Sort Prop
   with stmt_mi := Induction for stmt Sort Prop.
 Combined Scheme ast_mutind from expr_mi, elist_mi, stmt_mi.
 
-(* the listener state while walking function-fragment code: only [inputs] is tracked; inner scopes are empty *)
-Definition NI (ins : list (list string)) : names := {| glob := ["inputs"]; inner := ins |}.
-Definition WN (ins : list (list string)) (D : list string) : wst := {| nm := NI ins; dp := D |}.
+(* the listener state while walking function-fragment code: the outermost scope [G] contains inputs and none of the
+   names of the function being walked; inner scopes are empty *)
+Definition NI (G : list string) (ins : list (list string)) : names := {| glob := G; inner := ins |}.
+Definition WN (G : list string) (ins : list (list string)) (D : list string) : wst := {| nm := NI G ins; dp := D |}.
 Definition shape (ins : list (list string)) : Prop := ins = [] \/ ins = [[]].
 
-Lemma contains_NI x ins : shape ins -> contains x (NI ins) = String.eqb x "inputs".
+Lemma contains_NI x G ins : shape ins -> contains x (NI G ins) = mem x G.
 Proof. intros [->| ->]; unfold contains; simpl; rewrite ?orb_false_r; reflexivity. Qed.
-Lemma in_global_NI x ins : shape ins -> in_global x (NI ins) = String.eqb x "inputs".
+Lemma in_global_NI x G ins : shape ins -> in_global x (NI G ins) = mem x G.
 Proof. intros [->| ->]; unfold in_global; simpl; rewrite ?orb_false_r, ?andb_true_r; reflexivity. Qed.
 Lemma local_not_inputs x L : mem x L = true -> mem "inputs" L = false -> String.eqb x "inputs" = false.
 Proof.
@@ -24,148 +25,169 @@ Proof.
   apply String.eqb_eq in E. subst. congruence.
 Qed.
 
-Definition Wpost (ins : list (list string)) (D : list string) (ad : list string) (r : wres) : Prop :=
-  exists D', r = WOk (WN ins D') /\ incl D D' /\ incl ad D'.
+(* G agrees with "is the identifier inputs" on the identifiers of function-fragment code *)
+Definition Gok (G L : list string) : Prop :=
+  mem "inputs" G = true /\ forall x, mem x L = true -> mem x G = false.
+Lemma Gok_id G L x : Gok G L -> mem "inputs" L = false -> okb_e L (EId x) = true -> mem x G = String.eqb x "inputs".
+Proof.
+  intros [Gi Gl] Hi Hok. simpl in Hok. destruct (mem x L) eqn:Em.
+  - rewrite (Gl x Em). symmetry. apply (local_not_inputs x L Em Hi).
+  - simpl in Hok. rewrite Hok. apply String.eqb_eq in Hok. subst. exact Gi.
+Qed.
 
-Lemma Wpost_seq ins D a1 a2 ad r1 (k : wst -> wres) :
-  Wpost ins D a1 r1 -> (forall D1, Wpost ins D1 a2 (k (WN ins D1))) ->
-  incl ad (a1 ++ a2) -> Wpost ins D ad (wbind r1 k).
+Definition Wpost (G : list string) (ins : list (list string)) (D : list string) (ad : list string) (r : wres) : Prop :=
+  exists D', r = WOk (WN G ins D') /\ incl D D' /\ incl ad D'.
+
+Lemma Wpost_seq G ins D a1 a2 ad r1 (k : wst -> wres) :
+  Wpost G ins D a1 r1 -> (forall D1, Wpost G ins D1 a2 (k (WN G ins D1))) ->
+  incl ad (a1 ++ a2) -> Wpost G ins D ad (wbind r1 k).
 Proof.
   intros [D1 [-> [I1 A1]]] H Had. destruct (H D1) as [D2 [E2 [I2 A2]]].
   exists D2. simpl. split; [exact E2|]. split; [eapply incl_tran; eauto|].
   intros z Hz. apply Had in Hz. apply in_app_iff in Hz. destruct Hz as [Hz|Hz]; [apply I2, A1, Hz|apply A2, Hz].
 Qed.
-Lemma Wpost_id ins D : Wpost ins D [] (WOk (WN ins D)).
+Lemma Wpost_id G ins D : Wpost G ins D [] (WOk (WN G ins D)).
 Proof. exists D. split; [reflexivity|]. split; [apply incl_refl|apply incl_nil_l]. Qed.
 
-Lemma enter_dot_NI ins x f D :
-  shape ins -> is_reserved f = false ->
-  Wpost ins D (inputs_key (EId x) [f]) (enter_dot (EId x) f (WN ins D)).
+Lemma enter_dot_NI G ins x f D :
+  shape ins -> is_reserved f = false -> mem x G = String.eqb x "inputs" ->
+  Wpost G ins D (inputs_key (EId x) [f]) (enter_dot (EId x) f (WN G ins D)).
 Proof.
-  intros Hs Hr. unfold enter_dot; simpl. rewrite (in_global_NI x ins Hs).
+  intros Hs Hr Hx. unfold enter_dot; simpl. rewrite (in_global_NI x G ins Hs), Hx.
   destruct (String.eqb x "inputs"); [rewrite Hr; exists (f :: D)|exists D];
     (split; [reflexivity|]); (split; [try apply incl_tl; apply incl_refl|]).
   - intros z [<-|[]]. left; reflexivity.
   - apply incl_nil_l.
 Qed.
-Lemma enter_index_NI ins x dq s D :
-  shape ins -> strip_q (token_text dq s) = s -> String.eqb s "" = false ->
-  Wpost ins D (inputs_key (EId x) [s]) (enter_index (EId x) (EStr dq s) (WN ins D)).
+Lemma enter_index_NI G ins x dq s D :
+  shape ins -> strip_q (token_text dq s) = s -> String.eqb s "" = false -> mem x G = String.eqb x "inputs" ->
+  Wpost G ins D (inputs_key (EId x) [s]) (enter_index (EId x) (EStr dq s) (WN G ins D)).
 Proof.
-  intros Hs A B. unfold enter_index; simpl. rewrite (in_global_NI x ins Hs).
+  intros Hs A B Hx. unfold enter_index; simpl. rewrite (in_global_NI x G ins Hs), Hx.
   destruct (String.eqb x "inputs"); [rewrite A, B; exists (s :: D)|exists D];
     (split; [reflexivity|]); (split; [try apply incl_tl; apply incl_refl|]).
   - intros z [<-|[]]. left; reflexivity.
   - apply incl_nil_l.
 Qed.
 
-Lemma fundecl_NI : forall ps D, mem "inputs" ps = false ->
-  enter_fundecl ps (WN [] D) = WN [[]] D.
+(* enterFunctionDeclaration adds no shadow when no parameter is a tracked name *)
+Lemma fundecl_NI : forall G ps D, (forall p, In p ps -> mem p G = false) ->
+  enter_fundecl ps (WN G [] D) = WN G [[]] D.
 Proof.
-  intros ps D H. unfold enter_fundecl.
-  change (set_nm (add_scope (nm (WN [] D))) (WN [] D)) with (WN [[]] D).
+  intros G ps D H. unfold enter_fundecl.
+  change (set_nm (add_scope (nm (WN G [] D))) (WN G [] D)) with (WN G [[]] D).
   induction ps as [|p ps IH]; simpl; [reflexivity|].
-  rewrite mem_cons in H. apply orb_false_iff in H. destruct H as [Hp H].
-  rewrite (contains_NI p [[]] (or_intror eq_refl)).
-  rewrite String.eqb_sym, Hp. apply IH; exact H.
+  rewrite (contains_NI p G [[]] (or_intror eq_refl)), (H p (or_introl eq_refl)).
+  apply IH. intros q Hq. apply H. right; exact Hq.
 Qed.
 
-Definition Pe (e : expr) : Prop := forall L ins D,
-  okb_e L e = true -> mem "inputs" L = false -> shape ins -> Wpost ins D (ad_e e) (walk_e e (WN ins D)).
-Definition Pl (l : elist) : Prop := forall L ins D,
-  okb_l L l = true -> mem "inputs" L = false -> shape ins -> Wpost ins D (ad_l l) (walk_l l (WN ins D)).
-Definition Ps (c : stmt) : Prop := forall top L ins D,
-  okb_s top L c = true -> mem "inputs" L = false -> (ins = [] \/ (ins = [[]] /\ top = false)) ->
-  Wpost ins D (ad_s c) (walk_s c (WN ins D)).
+Definition Pe (e : expr) : Prop := forall G L ins D,
+  okb_e L e = true -> mem "inputs" L = false -> Gok G L -> shape ins -> Wpost G ins D (ad_e e) (walk_e e (WN G ins D)).
+Definition Pl (l : elist) : Prop := forall G L ins D,
+  okb_l L l = true -> mem "inputs" L = false -> Gok G L -> shape ins -> Wpost G ins D (ad_l l) (walk_l l (WN G ins D)).
+Definition Ps (c : stmt) : Prop := forall top G L ins D,
+  okb_s top L c = true -> mem "inputs" L = false -> Gok G L -> (top = true -> G = ["inputs"]) ->
+  (ins = [] \/ (ins = [[]] /\ top = false)) ->
+  Wpost G ins D (ad_s c) (walk_s c (WN G ins D)).
 
 Lemma shape_of ins top : (ins = [] \/ (ins = [[]] /\ top = false)) -> shape ins.
 Proof. intros [->|[-> _]]; [left|right]; reflexivity. Qed.
 
+Lemma Gok_inputs L : mem "inputs" L = false -> Gok ["inputs"] L.
+Proof.
+  intros Hi. split; [reflexivity|]. intros x Hx. rewrite mem_cons. simpl. rewrite orb_false_r.
+  apply (local_not_inputs x L Hx Hi).
+Qed.
+
 Lemma W_all : (forall e, Pe e) /\ (forall l, Pl l) /\ (forall c, Ps c).
 Proof.
   apply ast_mutind; unfold Pe, Pl, Ps.
-  - intros n L ins D _ _ _. apply Wpost_id.
-  - intros dq s L ins D _ _ _. apply Wpost_id.
-  - intros b L ins D _ _ _. apply Wpost_id.
-  - intros x L ins D _ _ _. apply Wpost_id.
+  - intros n G L ins D _ _ _ _. apply Wpost_id.
+  - intros dq s G L ins D _ _ _ _. apply Wpost_id.
+  - intros b G L ins D _ _ _ _. apply Wpost_id.
+  - intros x G L ins D _ _ _ _. apply Wpost_id.
   - (* EDot *)
-    intros e IH f L ins D Hok Hi Hs. simpl in Hok. apply andb_true_iff in Hok. destruct Hok as [H1 H2].
+    intros e IH f G L ins D Hok Hi HG Hs. simpl in Hok. apply andb_true_iff in Hok. destruct Hok as [H1 H2].
     simpl. destruct (get_name e) as [x|] eqn:En.
     + apply get_name_some in En; subst e. apply negb_true_iff in H2.
-      eapply Wpost_seq; [apply enter_dot_NI; assumption| |apply incl_refl].
+      eapply Wpost_seq; [apply enter_dot_NI; [assumption|assumption|apply (Gok_id G L x HG Hi H1)]| |apply incl_refl].
       intros D1. apply Wpost_id.
     + rewrite (enter_dot_none _ _ _ En). simpl.
-      destruct (IH L ins D H1 Hi Hs) as [D' [E [I1 A1]]]. exists D'. split; [exact E|]. split; [exact I1|].
+      destruct (IH G L ins D H1 Hi HG Hs) as [D' [E [I1 A1]]]. exists D'. split; [exact E|]. split; [exact I1|].
       intros z Hz. apply in_app_iff in Hz. destruct Hz as [Hz|Hz]; [|apply A1; exact Hz].
       destruct e; simpl in En, Hz; try contradiction. discriminate.
   - (* EIdx *)
-    intros e IH k IHk L ins D Hok Hi Hs. simpl in Hok. apply andb_true_iff in Hok. destruct Hok as [H1 H2].
+    intros e IH k IHk G L ins D Hok Hi HG Hs. simpl in Hok. apply andb_true_iff in Hok. destruct Hok as [H1 H2].
     simpl. destruct (get_name e) as [x|] eqn:En.
     + apply get_name_some in En; subst e. apply good_key_inv in H2. destruct H2 as [dq [s [-> [A B]]]].
-      eapply Wpost_seq; [apply enter_index_NI; assumption| |].
+      eapply Wpost_seq; [apply enter_index_NI; [assumption|assumption|assumption|apply (Gok_id G L x HG Hi H1)]| |].
       * intros D1. simpl. apply Wpost_id.
       * simpl. inc.
     + rewrite (enter_index_none _ _ _ En). simpl.
       apply andb_true_iff in H2. destruct H2 as [_ Hk].
-      eapply Wpost_seq; [apply (IH L ins D H1 Hi Hs)|intros D1; apply (IHk L ins D1 Hk Hi Hs)|].
+      eapply Wpost_seq; [apply (IH G L ins D H1 Hi HG Hs)|intros D1; apply (IHk G L ins D1 Hk Hi HG Hs)|].
       intros z Hz. apply in_app_iff in Hz. destruct Hz as [Hz|Hz]; [|exact Hz].
       destruct e; simpl in En, Hz; try contradiction. discriminate.
   - (* EAdd *)
-    intros a IHa b IHb L ins D Hok Hi Hs. simpl in Hok. apply andb_true_iff in Hok. destruct Hok as [H1 H2].
-    simpl. eapply Wpost_seq; [apply (IHa L ins D H1 Hi Hs)|intros D1; apply (IHb L ins D1 H2 Hi Hs)|apply incl_refl].
+    intros a IHa b IHb G L ins D Hok Hi HG Hs. simpl in Hok. apply andb_true_iff in Hok. destruct Hok as [H1 H2].
+    simpl. eapply Wpost_seq; [apply (IHa G L ins D H1 Hi HG Hs)|intros D1; apply (IHb G L ins D1 H2 Hi HG Hs)|apply incl_refl].
   - (* ECond *)
-    intros c IHc a IHa b IHb L ins D Hok Hi Hs. simpl in Hok.
+    intros c IHc a IHa b IHb G L ins D Hok Hi HG Hs. simpl in Hok.
     apply andb_true_iff in Hok. destruct Hok as [Hok H3]. apply andb_true_iff in Hok. destruct Hok as [H1 H2].
-    simpl. eapply Wpost_seq; [apply (IHc L ins D H1 Hi Hs)| |apply incl_refl].
-    intros D1. eapply Wpost_seq; [apply (IHa L ins D1 H2 Hi Hs)|intros D2; apply (IHb L ins D2 H3 Hi Hs)|apply incl_refl].
+    simpl. eapply Wpost_seq; [apply (IHc G L ins D H1 Hi HG Hs)| |apply incl_refl].
+    intros D1. eapply Wpost_seq; [apply (IHa G L ins D1 H2 Hi HG Hs)|intros D2; apply (IHb G L ins D2 H3 Hi HG Hs)|apply incl_refl].
   - (* EParen *)
-    intros e IH L ins D Hok Hi Hs. simpl in *. apply (IH L ins D Hok Hi Hs).
+    intros e IH G L ins D Hok Hi HG Hs. simpl in *. apply (IH G L ins D Hok Hi HG Hs).
   - (* EAssign *)
-    intros x r IH L ins D Hok Hi Hs. simpl in Hok.
+    intros x r IH G L ins D Hok Hi HG Hs. simpl in Hok.
     apply andb_true_iff in Hok. destruct Hok as [Hok Hm]. apply andb_true_iff in Hok. destruct Hok as [Hx Hr].
     simpl.
-    assert (Ea : enter_assign x r (WN ins D) = WOk (WN ins D)).
-    { unfold enter_assign. simpl. rewrite (contains_NI x ins Hs), (local_not_inputs x L Hx Hi).
+    assert (Ea : enter_assign x r (WN G ins D) = WOk (WN G ins D)).
+    { unfold enter_assign. simpl. rewrite (contains_NI x G ins Hs), (proj2 HG x Hx).
       destruct (get_name r) as [y|] eqn:En; [|reflexivity].
       apply get_name_some in En; subst r. simpl in Hm. apply negb_true_iff in Hm. apply negb_false_iff in Hm.
-      rewrite (contains_NI y ins Hs), (local_not_inputs y L Hm Hi). reflexivity. }
-    rewrite Ea. simpl. apply (IH L ins D Hr Hi Hs).
+      rewrite (contains_NI y G ins Hs), (proj2 HG y Hm). reflexivity. }
+    rewrite Ea. simpl. apply (IH G L ins D Hr Hi HG Hs).
   - (* ECall *)
-    intros f IHf args IHa L ins D Hok Hi Hs. simpl in Hok. apply andb_true_iff in Hok. destruct Hok as [H1 H2].
+    intros f IHf args IHa G L ins D Hok Hi HG Hs. simpl in Hok. apply andb_true_iff in Hok. destruct Hok as [H1 H2].
     destruct (get_name f) as [g|] eqn:En; [|discriminate]. apply get_name_some in En; subst f.
-    simpl. apply (IHa L ins D H2 Hi Hs).
+    simpl. apply (IHa G L ins D H2 Hi HG Hs).
   - (* EFun *)
-    intros ps body _ L ins D Hok. simpl in Hok. discriminate.
-  - intros L ins D _ _ _. apply Wpost_id.
+    intros ps body _ G L ins D Hok. simpl in Hok. discriminate.
+  - intros G L ins D _ _ _ _. apply Wpost_id.
   - (* ECons *)
-    intros e IHe r IHr L ins D Hok Hi Hs. simpl in Hok.
+    intros e IHe r IHr G L ins D Hok Hi HG Hs. simpl in Hok.
     apply andb_true_iff in Hok. destruct Hok as [Hok H3]. apply andb_true_iff in Hok. destruct Hok as [H1 _].
-    simpl. eapply Wpost_seq; [apply (IHe L ins D H1 Hi Hs)|intros D1; apply (IHr L ins D1 H3 Hi Hs)|apply incl_refl].
-  - intros top L ins D _ _ _. apply Wpost_id.
+    simpl. eapply Wpost_seq; [apply (IHe G L ins D H1 Hi HG Hs)|intros D1; apply (IHr G L ins D1 H3 Hi HG Hs)|apply incl_refl].
+  - intros top G L ins D _ _ _ _ _. apply Wpost_id.
   - (* SSeq *)
-    intros a IHa b IHb top L ins D Hok Hi Hs. simpl in Hok. apply andb_true_iff in Hok. destruct Hok as [H1 H2].
-    simpl. eapply Wpost_seq; [apply (IHa top L ins D H1 Hi Hs)|intros D1; apply (IHb top L ins D1 H2 Hi Hs)|apply incl_refl].
-  - intros x top L ins D _ _ _. apply Wpost_id.
+    intros a IHa b IHb top G L ins D Hok Hi HG Ht Hs. simpl in Hok. apply andb_true_iff in Hok. destruct Hok as [H1 H2].
+    simpl. eapply Wpost_seq; [apply (IHa top G L ins D H1 Hi HG Ht Hs)|intros D1; apply (IHb top G L ins D1 H2 Hi HG Ht Hs)|apply incl_refl].
+  - intros x top G L ins D _ _ _ _ _. apply Wpost_id.
   - (* SVarI *)
-    intros x e IH top L ins D Hok Hi Hs. simpl in Hok.
+    intros x e IH top G L ins D Hok Hi HG Ht Hs. simpl in Hok.
     apply andb_true_iff in Hok. destruct Hok as [Hok _]. apply andb_true_iff in Hok. destruct Hok as [_ He].
-    simpl. apply (IH L ins D He Hi (shape_of _ _ Hs)).
-  - intros e IH top L ins D Hok Hi Hs. simpl in *. apply (IH L ins D Hok Hi (shape_of _ _ Hs)).
-  - intros e IH top L ins D Hok Hi Hs. simpl in Hok. apply andb_true_iff in Hok. destruct Hok as [He _].
-    simpl. apply (IH L ins D He Hi (shape_of _ _ Hs)).
+    simpl. apply (IH G L ins D He Hi HG (shape_of _ _ Hs)).
+  - intros e IH top G L ins D Hok Hi HG Ht Hs. simpl in *. apply (IH G L ins D Hok Hi HG (shape_of _ _ Hs)).
+  - intros e IH top G L ins D Hok Hi HG Ht Hs. simpl in Hok. apply andb_true_iff in Hok. destruct Hok as [He _].
+    simpl. apply (IH G L ins D He Hi HG (shape_of _ _ Hs)).
   - (* SIf *)
-    intros c IHc t IHt f IHf top L ins D Hok Hi Hs. simpl in Hok.
+    intros c IHc t IHt f IHf top G L ins D Hok Hi HG Ht Hs. simpl in Hok.
     apply andb_true_iff in Hok. destruct Hok as [Hok H3]. apply andb_true_iff in Hok. destruct Hok as [H1 H2].
     assert (Hs' : ins = [] \/ ins = [[]] /\ false = false) by (destruct Hs as [->|[-> _]]; auto).
-    simpl. eapply Wpost_seq; [apply (IHc L ins D H1 Hi (shape_of _ _ Hs))| |apply incl_refl].
-    intros D1. eapply Wpost_seq; [apply (IHt false L ins D1 H2 Hi Hs')|intros D2; apply (IHf false L ins D2 H3 Hi Hs')|apply incl_refl].
+    assert (Ht' : false = true -> G = ["inputs"]) by discriminate.
+    simpl. eapply Wpost_seq; [apply (IHc G L ins D H1 Hi HG (shape_of _ _ Hs))| |apply incl_refl].
+    intros D1. eapply Wpost_seq; [apply (IHt false G L ins D1 H2 Hi HG Ht' Hs')|intros D2; apply (IHf false G L ins D2 H3 Hi HG Ht' Hs')|apply incl_refl].
   - (* SFun *)
-    intros fn ps body IH top L ins D Hok Hi Hs. simpl in Hok.
-    apply andb_true_iff in Hok. destruct Hok as [Hok Hni]. apply andb_true_iff in Hok. destruct Hok as [Ht Hb].
+    intros fn ps body IH top G L ins D Hok Hi HG Ht Hs. simpl in Hok.
+    apply andb_true_iff in Hok. destruct Hok as [Hok Hni]. apply andb_true_iff in Hok. destruct Hok as [Htop Hb].
     subst top. destruct Hs as [->|[_ C]]; [|discriminate]. apply negb_true_iff in Hni.
-    assert (Hps : mem "inputs" ps = false).
-    { rewrite mem_app in Hni. apply orb_false_iff in Hni. exact (proj1 Hni). }
-    simpl. change {| nm := NI []; dp := D |} with (WN [] D). rewrite (fundecl_NI ps D Hps).
-    destruct (IH false _ [[]] D Hb Hni (or_intror (conj eq_refl eq_refl))) as [D' [E [I1 A1]]].
+    rewrite (Ht eq_refl) in *.
+    assert (HG' : Gok ["inputs"] (ps ++ hoist_vars body)) by (apply Gok_inputs; exact Hni).
+    simpl. change {| nm := NI ["inputs"] []; dp := D |} with (WN ["inputs"] [] D).
+    rewrite (fundecl_NI ["inputs"] ps D).
+    2:{ intros p Hp. apply (proj2 HG'). rewrite mem_app. apply orb_true_iff. left. apply mem_In. exact Hp. }
+    assert (Ht' : false = true -> ["inputs"] = ["inputs"]) by reflexivity.
+    destruct (IH false ["inputs"] _ [[]] D Hb Hni HG' Ht' (or_intror (conj eq_refl eq_refl))) as [D' [E [I1 A1]]].
     rewrite E. simpl. exists D'. split; [reflexivity|]. split; [exact I1|exact A1].
 Qed.
